@@ -319,6 +319,18 @@ class Canon:
         if isinstance(e, ast.Subscript) and isinstance(e.value, (ast.Tuple, ast.List)) and isinstance(e.slice, ast.Constant) and isinstance(e.slice.value, int) and not any(isinstance(x, ast.Starred) for x in e.value.elts):
             if -len(e.value.elts) <= e.slice.value < len(e.value.elts):
                 return e.value.elts[e.slice.value]
+        if isinstance(e, ast.Subscript) and isinstance(e.slice, ast.Slice) and e.slice.step is None and isinstance(e.value, ast.Subscript) and isinstance(e.value.slice, ast.Slice) \
+                and e.value.slice.step is None and e.value.slice.upper is None:
+            # X[a:][b:] -> X[a+b:] ; X[a:][:c] -> X[a:a+c] ; X[a:][b:c] -> X[a+b:a+c]   (non-negative constants only)
+            a_ = e.value.slice.lower
+            a_v = 0 if a_ is None else (a_.value if isinstance(a_, ast.Constant) and isinstance(a_.value, int) else None)
+            b_ = e.slice.lower
+            b_v = 0 if b_ is None else (b_.value if isinstance(b_, ast.Constant) and isinstance(b_.value, int) else None)
+            c_ = e.slice.upper
+            c_v = None if c_ is None else (c_.value if isinstance(c_, ast.Constant) and isinstance(c_.value, int) else -1)
+            if a_v is not None and b_v is not None and a_v >= 0 and b_v >= 0 and (c_v is None or c_v >= 0):
+                lo = a_v + b_v
+                return ast.Subscript(e.value.value, ast.Slice(ast.Constant(lo) if lo else None, ast.Constant(a_v + c_v) if c_v is not None else None, None), e.ctx)
         if isinstance(e, ast.Subscript) and isinstance(e.value, ast.Call) and isinstance(e.value.func, ast.Name) and e.value.func.id in ("list", "tuple") and len(e.value.args) == 1 \
                 and isinstance(e.value.args[0], (ast.Name, ast.Attribute)) and not isinstance(e.slice, ast.Slice):
             e.value = e.value.args[0]
@@ -538,7 +550,8 @@ class SymWalker:
     `leaf(expr, text) -> formula` decides how a canonical atom becomes a formula (default: opaque atom named by
     its text); value-set atomizers plug in there."""
 
-    def __init__(self, func_node, canon=None, leaf=None, params=None, keep=(), feasible=None):
+    def __init__(self, func_node, canon=None, leaf=None, params=None, keep=(), feasible=None, ignore_asserts=False):
+        self.ignore_asserts = ignore_asserts
         self.canon = canon or Canon()
         self.leaf = leaf or (lambda e, t: ("op", t))
         self.node = func_node
@@ -870,6 +883,8 @@ class SymWalker:
                     self._calls(v, st, s.reach)
                 self.exits.append(Exit("return" if isinstance(st, ast.Return) else "raise", getattr(st, "_orig", st), s.reach, self.sub(v) if v is not None else None))
             return []
+        if isinstance(st, ast.Assert) and self.ignore_asserts:
+            return states
         if isinstance(st, ast.Assert):
             res = []
             for s in states:
@@ -1557,7 +1572,7 @@ def _formula_names(f):
 def summarize(func_node, canon, leaf=None, keep=()):
     params = {a.arg for a in func_node.args.args + func_node.args.posonlyargs + func_node.args.kwonlyargs}
     keep = set(keep) | (mutated_locals(func_node) - params)
-    w = SymWalker(func_node, canon, leaf, keep=keep)
+    w = SymWalker(func_node, canon, leaf, keep=keep, ignore_asserts=True)     # assertions are not behaviour a property may rest on (python -O removes them)
     w.run()
     raw = []     # (kind, [parts], cond formula)
     loops = sorted([n for n in ast.walk(func_node) if isinstance(n, (ast.For, ast.While)) and id(n) in w.loop_out and w.converted.get(id(n), 0) <= 0], key=lambda n: (n.lineno, n.col_offset))
